@@ -169,7 +169,10 @@ Emit29 == LET sch == Sch29(st) IN
 (*        the dataset's schema                                             *)
 (***************************************************************************)
 Sch27 == UNION {[1..n -> Types] : n \in 1..MaxCols}
-Bk(len, types) == [len |-> len, types |-> types]
+\* names: "same" = the bucket's column names are the dataset's, in the dataset's order; "rot" = the same names rotated by one
+\* position (same set of names, another order)
+Bk(len, types) == [len |-> len, types |-> types, names |-> "same"]
+BkN(len, types, nm) == [len |-> len, types |-> types, names |-> nm]
 
 \* NewNumpyDataset + NewNumpyMultiDataset: ColumnData[i] = the column's bytes, StartIndex[tbk] = 0
 NewNM(b) == [types |-> b.types, length |-> b.len, start |-> <<0>>, lens |-> <<b.len>>,
@@ -179,8 +182,8 @@ NewNM(b) == [types |-> b.types, length |-> b.len, start |-> <<0>>, lens |-> <<b.
 AppendNM(nm, b) == [types |-> nm.types, length |-> nm.length + b.len,
                     start |-> Append(nm.start, nm.length), lens |-> Append(nm.lens, b.len),
                     segs |-> [i \in 1..Len(nm.types) |-> Append(nm.segs[i], b.len * Size(b.types[i]))]]
-\* Append compares the number of columns and the names, not the types; the intended design refuses
-AppendAccepts(nm, b, devs) == b.types = nm.types \/ "AppendIgnoresTypes" \in devs
+\* Append compares the number of columns and the names POSITION BY POSITION, not the types; the intended design refuses both
+AppendAccepts(nm, b, devs) == b.names = "same" /\ (b.types = nm.types \/ "AppendIgnoresTypes" \in devs)
 RECURSIVE Build(_, _, _, _)
 Build(nm, bks, k, devs) == IF k > Len(bks) THEN [ok |-> TRUE, nm |-> nm, at |-> 0]
                            ELSE IF AppendAccepts(nm, bks[k], devs) THEN Build(AppendNM(nm, bks[k]), bks, k + 1, devs)
@@ -226,8 +229,10 @@ Hits27(bks) == (IF \E k \in 1..Len(bks) : bks[k].len = 0 THEN {"EmptyBucketDropp
 
 Variants(ty) == {ty} \cup (IF Mismatch THEN {[ty EXCEPT ![i] = t] : i \in 1..Len(ty), t \in Types} \ {ty} ELSE {})
 Init27 == st \in {[bks |-> <<Bk(l, ty)>>] : l \in Lens, ty \in Sch27}
+NameOrders(ty) == IF Mismatch /\ Len(ty) >= 2 THEN {"same", "rot"} ELSE {"same"}
 Next27 == /\ Len(st.bks) < MaxBuckets
-          /\ \E l \in Lens, ty \in Variants(st.bks[1].types) : st' = [bks |-> Append(st.bks, Bk(l, ty))]
+          /\ \E l \in Lens, ty \in Variants(st.bks[1].types), no \in NameOrders(st.bks[1].types) :
+                st' = [bks |-> Append(st.bks, BkN(l, ty, no))]
 
 \* intended design: a conversion that is accepted round-trips, on both decoders, through the wire form
 C27_RoundTrip ==
@@ -254,10 +259,11 @@ Emit27 ==
       p  == Convert(st.bks, {})
       nm == c.nm
       n  == Len(st.bks)
-      sv == DecodeServer(nm, n, Deviations)
-      cl == DecodeClient(nm, n, Deviations) IN
+      m  == IF c.ok THEN n ELSE c.at - 1          \* a refused conversion holds the buckets before the refused one
+      sv == DecodeServer(nm, m, Deviations)
+      cl == DecodeClient(nm, m, Deviations) IN
   PrintT(<<"CASE", ToJson([
-     bks   |-> [k \in 1..n |-> [len |-> st.bks[k].len, types |-> [i \in 1..Len(st.bks[k].types) |-> TypeStr(st.bks[k].types[i])]]],
+     bks   |-> [k \in 1..n |-> [len |-> st.bks[k].len, names |-> st.bks[k].names, types |-> [i \in 1..Len(st.bks[k].types) |-> TypeStr(st.bks[k].types[i])]]],
      accepted |-> c.ok, refusedat |-> c.at, pureaccepts |-> p.ok,
      book  |-> [length |-> nm.length, start |-> nm.start, lens |-> nm.lens,
                 colbytes |-> [i \in 1..Len(nm.types) |-> ColBytes(nm, i)],
